@@ -172,6 +172,6 @@ pub fn spec() -> PropSpec {
         rule: "jobs with all-to-all, keyed, broadcast, two-downstream-block, join and loop-feedback links on local (2-3 replicas, capacity 1 or 16) and remote layouts (1+1, 2+1, 1+2 cores; two local replicas share one multiplexed connection; short reads/writes and 64-byte socket buffers as deviations): in every schedule within the bound the observer hook in NetworkSender::send / NetworkReceiver::recv* sees, per (producer replica, endpoint), the received elements as a prefix of the sent ones at every instant and equal at the end (bincode bytes, order, endpoint, sender); plus exhaustive Batcher operation sequences and every segmentation of framed messages through remote_send/remote_recv; non-trivial = non-empty input",
         assumptions: &["deviation bound as reported", "TCP is modelled as a reliable byte stream with arbitrary segmentation"],
         exhaustive_when_uncapped: false,
-        budget_s: (50, 1800),
+        budget_s: (50, 1200),
     }
 }
